@@ -136,3 +136,20 @@ package statsd
 //@   loop 1 invariant forall i int, j int :: 0 <= i && i < j && j < len(bh.workers) ==> bh.workers[i].metricMapQueue != bh.workers[j].metricMapQueue
 //@   loop 1 invariant routedOnlyC(maps, bh.numWorkers) && routedOnlyG(maps, bh.numWorkers) && routedOnlyT(maps, bh.numWorkers) && routedOnlyS(maps, bh.numWorkers)
 //@   modifies sent
+
+// ---- construction: each metric type gets its own expiry interval (C09) ----------------------------------
+//@ func NewMetricAggregator
+//@   floats real
+//@   ensures  result != nil && result.expiryIntervalCounter == expiryIntervalCounter && result.expiryIntervalGauge == expiryIntervalGauge && result.expiryIntervalSet == expiryIntervalSet && result.expiryIntervalTimer == expiryIntervalTimer
+//@   ensures  result.histogramLimit == histogramLimit && result.disabledSubtypes == disabled && result.now != nil && result.statser != nil
+//@   ensures  result.metricMap != nil && wfdCounters(result.metricMap.Counters) && wfdGauges(result.metricMap.Gauges) && wfdTimers(result.metricMap.Timers) && wfdSets(result.metricMap.Sets)
+//@   modifies everything
+//@   preserves statsd.agrFactory
+
+//@ func (*agrFactory).Create
+//@   floats real
+//@   requires af != nil
+//@   ensures  [intervals] payload(result, MetricAggregator).expiryIntervalCounter == af.expiryIntervalCounter && payload(result, MetricAggregator).expiryIntervalGauge == af.expiryIntervalGauge && payload(result, MetricAggregator).expiryIntervalSet == af.expiryIntervalSet && payload(result, MetricAggregator).expiryIntervalTimer == af.expiryIntervalTimer
+//@   ensures  payload(result, MetricAggregator).histogramLimit == af.histogramLimit && payload(result, MetricAggregator).disabledSubtypes == af.disabledSubtypes
+//@   modifies everything
+//@   preserves statsd.agrFactory
